@@ -472,7 +472,6 @@ def eval_case(ctx, spec):
             binned, invalid = None, True
         data2 = np.asarray(obs2.spectrum, float).ravel()
         # values written by update_model: parameter i must hold prior_i.prior(v_i)
-        p_md = ctx.model().call('c06.update', wire_priors(descs, zs), C.L(v)).opt(lambda: None)
         written = [float(np.asarray((model if n in model.fittingParameters else obs)[n])) for n in order]
         d = ctx.model().call('c06.update', wire_priors(descs, zs), C.L(v))
         p_md = d.list() if d.nat() else None
